@@ -24,6 +24,8 @@ def check(ctx):
         ctx.guard(_simple, ctx, out["simple"])
     if "eo" in out:
         ctx.guard(_eo, ctx, out["eo"])
+    from .c04 import r048_wiring
+    ctx.guard(r048_wiring, ctx, "R05.6")
     ctx.guard(_shared_c05, ctx)
 
 def r051(ctx):
